@@ -14,6 +14,7 @@ type Program struct {
 	Goroutines [][]Op `json:"goroutines"`
 	WithResets bool   `json:"with_resets"`
 	BlockFirst bool   `json:"block_first,omitempty"` // C06: goroutine 0's first call parks inside its function until all others are done
+	NilFuncs   []int  `json:"nil_funcs,omitempty"`   // -stub mocks: methods (index mod #methods) whose function field stays nil for the whole program
 }
 
 type gCall struct {
@@ -45,6 +46,14 @@ func RunProgram(def *MockDef, prog *Program) (vs []V, flags map[string]bool, err
 			zero[i] = reflect.Zero(ft.Out(i))
 		}
 		h.methods[k].field.Set(reflect.MakeFunc(ft, func(in []reflect.Value) []reflect.Value { return zero }))
+	}
+	if def.Stub {
+		// a stubbed mock records and returns zero values when the function is nil: that path runs concurrently too
+		for _, k := range prog.NilFuncs {
+			m := &h.methods[k%len(h.methods)]
+			m.field.Set(reflect.Zero(m.field.Type()))
+			flags["nil-func-concurrent"] = true
+		}
 	}
 	n := len(prog.Goroutines)
 	logs := make([]*gLog, n)
